@@ -410,6 +410,132 @@ def r_pred_wiring(model, rep):
     rep.ob("R-PRED-WIRING", "create_release_id:format", ok, site=cx.site(f.node), msg=msg)
 
 
+RID_CLASSES = [("plain", "ga"), ("plain", "other"), ("dashed", "ga"), ("dashed", "other")]
+
+
+def r_rid_roundtrip(model, rep):
+    """parse_release_id(create_release_id(short, version, type)) == (short, version, type), decided by abstract interpretation
+    of the parser's def-use terms on *segment strings*: the identifier is the writer's own format (scenario evaluation of
+    create_release_id) instantiated with a short name of 1..3 dash-separated symbolic segments (the shape of RELEASE_SHORT_RE), a
+    symbolic version free of '-' and '@' (the property's quantifier) and each known release type spelled out; the parser's
+    count/split/rsplit/endswith/slice code is evaluated on that abstract string, forking where the outcome depends on the
+    symbolic segments.  One obligation per class (short with/without dashes, type ga/other)."""
+    from .. import absstr
+    from ..absstr import AStr
+    types = list(model.const("common", "RELEASE_TYPES"))
+    # --- the writer's format per scenario
+    w = model.function("common", "create_release_id")
+    wcx = facts.fctx(model, w)
+    short_p, version_p, type_p, bp_p = [("param", x) for x in wcx.params[:4]]
+    fmts = {}
+    for t in types:
+        vals = facts.Scenario(wcx, atoms={bp_p: False}, subst={type_p: ("const", t)}).returns()
+        if len(vals) != 1 or vals[0][0] != "fmt":
+            raise AnalysisError("create_release_id: cannot evaluate the identifier format for type %r: %s" % (t, [T.show(v)[:80] for v in vals]))
+        fmts[t] = vals[0][1]
+    # --- the parser's result terms
+    f = model.function("common", "_parse_release_id_part")
+    cx = facts.fctx(model, f)
+    rid_p = ("param", cx.params[0])
+    res = None
+    for ev in cx.events:
+        if ev.kind == "bind" and ev.raw is not None and ev.raw[0] == "local" and ev.raw[3][0] == "dict":
+            keys = dict((k[1], v) for k, v in ev.raw[3][1] if k[0] == "const")
+            if set(keys) == {"short", "version", "type"}:
+                res = keys
+    if res is None:
+        rets = [ev for ev in cx.events if ev.kind == "return"]
+        for r in rets:
+            v = T.unwrap(r.raw)
+            if v[0] == "dict":
+                keys = dict((k[1], x) for k, x in v[1] if k[0] == "const")
+                if set(keys) == {"short", "version", "type"}:
+                    res = keys
+    if res is None:
+        raise AnalysisError("_parse_release_id_part: the {short, version, type} result is not recognisable (idiom not understood)")
+    # 'first element of a constant table satisfying a test' loops
+    firsts = {}
+    for ev in cx.events:
+        if ev.kind == "bind" and ev.loops and ev.value == ("elem", ev.loops[-1][1], ev.loops[-1][0]) and ev.loops[-1][1][0] == "global" \
+                and ev.extra is None:
+            lid = ev.loops[-1][0]
+            base = tuple(cx.ex.loop_guards.get(lid, ()))
+            rel = [g for g in ev.guards[len(base):]]
+            brk = [b for b in cx.events if b.kind == "break" and b.loops == ev.loops and b.seq > ev.seq and tuple(b.guards) == tuple(ev.guards)]
+            if len(rel) == 1 and rel[0][1] is True and brk:
+                firsts[lid] = (ev.loops[-1][1][1], rel[0][0])
+
+    def tables(name):
+        v = model.const("common", name)
+        if not isinstance(v, (list, tuple)):
+            raise absstr.Unmodelled("table %s" % name)
+        return list(v)
+    results = dict((c, []) for c in RID_CLASSES)
+    n_runs = 0
+    for d in (0, 1, 2):
+        short = AStr.of(*sum([[("sym", "s%d" % i)] + ([("lit", "-")] if i < d else []) for i in range(d + 1)], []))
+        for t in types:
+            ga_ = (t == "ga")
+            pieces = []
+            for pc in fmts[t]:
+                if pc[0] == "const":
+                    pieces.append(pc[1])
+                elif pc == short_p:
+                    pieces.append(short)
+                elif pc == version_p:
+                    pieces.append(("sym", "version"))
+                elif pc == type_p:
+                    pieces.append(t)
+                else:
+                    raise AnalysisError("create_release_id: unexpected piece %s in the identifier" % T.show(pc)[:60])
+            rid = AStr.of(*pieces)
+            env = {rid_p: rid}
+            if len(cx.params) > 1:
+                env[("param", cx.params[1])] = AStr()
+            want0 = [short, AStr.of(("sym", "version")), AStr.concrete(t)]
+            try:
+                outs = absstr.explore(env, tables, firsts, ("tuple", (res["short"], res["version"], res["type"])), watch=want0 + [rid])
+            except absstr.Unmodelled as e:
+                raise AnalysisError("_parse_release_id_part: %s is not modelled by the segment-string interpreter" % e)
+            cls = ("dashed" if d else "plain", "ga" if ga_ else "other")
+            for vals, trail, watched in outs:
+                n_runs += 1
+                want, rid_r = watched[:3], watched[3]
+                if vals != want:
+                    got = [v.show() if isinstance(v, AStr) else repr(v) for v in vals]
+                    results[cls].append("%s -> short=%s version=%s type=%s%s" % (
+                        rid_r.show(), got[0], got[1], got[2], (" (when %s)" % "; ".join(trail)) if trail else ""))
+    for cls in RID_CLASSES:
+        bad = results[cls]
+        rep.ob("R-RID-ROUNDTRIP", "parse_release_id:round-trip[short=%s,type=%s]" % cls, not bad, site=cx.site(f.node),
+               msg="" if not bad else "the created identifier does not parse back to its parts: %s" % "; ".join(bad[:3]),
+               facts={"abstract_runs": n_runs, "types": len(types), "short_shapes": 3})
+    rep.extra["states"] = rep.extra.get("states", 0) + n_runs
+    # glue: parse_release_id splits once on '@' and parses both halves with the same function (prefix 'bp_')
+    g = model.function("common", "parse_release_id")
+    gcx = facts.fctx(model, g)
+    gp = ("param", gcx.params[0])
+    has_at = ("cmp", ("in",), (("const", "@"), gp))
+    sp = ("call", ("attr", gp, "split"), (("const", "@"),), ())
+    ok = True
+    for at in (False, True):
+        sc = facts.Scenario(gcx, atoms={has_at: at})
+        calls = [(ev, h) for ev, h in sc.events("call") if ev.value[1] == ("global", "_parse_release_id_part")]
+        args = sorted((T.show(T.degate(sc.term(ev.raw[2][0]))), tuple(sorted((k, T.show(v)) for k, v in ev.raw[3]))) for ev, h in calls if h is not False)
+        if at:
+            want_calls = sorted([(T.show(("idx", sp, 0)), ()), (T.show(("idx", sp, 1)), (("prefix", "'bp_'"),))])
+        else:
+            want_calls = [(T.show(gp), ())]
+        live = [a for a in args]
+        if at:
+            ok = ok and live == want_calls
+        else:
+            ok = ok and [a for a in live if a[1] == ()] == want_calls and not [ev for ev, h in calls if h is True and ev.raw[3]]
+    rep.ob("R-RID-ROUNDTRIP", "parse_release_id:base-product-split", ok, site=gcx.site(g.node),
+           msg="" if ok else "parse_release_id must split once on '@' and parse the release part and the base-product part (prefix 'bp_') "
+                             "with the same part parser")
+
+
 def r_types_table(model, rep, pats, U):
     types = model.const("common", "RELEASE_TYPES")
     missing = [t for t in RELEASE_TYPES_MIN if t not in types]
@@ -448,15 +574,22 @@ def check_c14(model, rep, tier):
         "returns whether its own constant matched; create_release_id applies the three predicates to (short, version, "
         "type), raises ValueError before formatting, formats ga implicitly and appends '@' + the base product id; "
         "(3) every known release type is in L(type regex), the table contains the documented values and no entry is "
-        "shadowed by an earlier entry that is its suffix. NOT decided: the round trip parse_release_id(create_release_id"
-        "(...)) -- the parser is count/endswith/rsplit string code and deciding it for all strings needs a string "
-        "transducer model of Python string methods (symbolic execution, another technique family). Only the clauses "
-        "above are claimed.")
-    rep.not_decided = ["parse_release_id(create_release_id(x)) == x (string-operation code; see DESIGN.md O1)"]
-    rep.assumptions = ["regex -> NFA translation", "re.match semantics"]
+        "shadowed by an earlier entry that is its suffix; (4) the round trip parse_release_id(create_release_id(...)), by "
+        "abstract interpretation of the parser's def-use terms over segment strings: the identifier is the writer's own "
+        "format (scenario evaluation of create_release_id) with a short name of one to three dash-separated symbolic "
+        "segments, a symbolic version free of '-' and '@' and each known release type; count/split/rsplit/endswith/"
+        "slice-by-length and the 'first known type that is a suffix' search are evaluated on that abstract string, "
+        "splitting cases where the outcome depends on what a symbolic segment stands for; one obligation per class "
+        "(short with/without dashes x type ga/other) plus the '@' glue. The class (dashed short, ga) fails on the pinned "
+        "tree: known finding K3. Not decided: versions that themselves contain '-' or '@' (outside the quantifier).")
+    rep.not_decided = ["round trip for versions containing '-' or '@' (outside the property's quantifier)"]
+    rep.assumptions = ["regex -> NFA translation", "re.match semantics",
+                       "segment-string domain: short-name segments and versions are non-empty and free of '-' and '@' (RELEASE_SHORT_RE shape, "
+                       "quantifier of C14)", "semantics of str.count/split/rsplit/endswith and s[:-len(x)] as modelled in pmdcheck/absstr.py"]
     pats, U = r_pred_lang(model, rep)
     r_pred_wiring(model, rep)
     r_types_table(model, rep, pats, U)
+    r_rid_roundtrip(model, rep)
     r_stateless(model, rep, [model.function("common", n) for n in (
         "is_valid_release_short", "is_valid_release_version", "is_valid_release_type", "create_release_id", "parse_release_id",
         "_parse_release_id_part", "split_version")])
